@@ -227,6 +227,25 @@ func bidConversationInputs(w *warm) []c18input {
 	return out
 }
 
+// configChangeInputs: a configuration proposal with a hostile value is created, funded, voted through by every
+// validator and given time to be finalised (six prelude blocks; the option validation should refuse it at
+// creation), then ordinary, correctly signed transactions that use the option arrive.
+func configChangeInputs(w *warm) []c18input {
+	var out []c18input
+	u := w.w.Users[1%len(w.w.Users)]
+	for k, upd := range []string{"onsOptions.perBlockFees:0", "onsOptions.perBlockFees:-1", "onsOptions.baseDomainPrice:-1", "feeOption.minFeeDecimal:-1", "feeOption.minFeeDecimal:40", "evidenceOptions.penaltyBasePercentage:0", "stakingOptions.topValidatorCount:0", "rewardOptions.rewardInterval:0"} {
+		prelude := gen.ConfigProposalBlocks(w.w, w.state, w.h, fmt.Sprintf("c18-%d-%d", w.h, k), upd)
+		name := fmt.Sprintf("c18cfg%dx%d.ol", w.h, k)
+		create := txb.Tx(&onsact.DomainCreate{Owner: u.Addr, Beneficiary: u.Addr, Name: onsdata.GetNameFromString(name), BuyingPrice: txb.Amt("OLT", "2000000000000000000000")}, txb.DefaultFee(), fmt.Sprintf("c18-cfg-create-%d-%d", w.h, k), u)
+		out = append(out, c18input{"DOMAIN_CREATE.<after a configuration proposal>", upd, create})
+		c18Prelude.Store(string(create), prelude)
+		send := txb.Tx(txb.Send(u.Addr, w.w.Users[0].Addr, "OLT", "5"), txb.DefaultFee(), fmt.Sprintf("c18-cfg-send-%d-%d", w.h, k), u)
+		out = append(out, c18input{"SEND.<after a configuration proposal>", upd, send})
+		c18Prelude.Store(string(send), prelude)
+	}
+	return out
+}
+
 // signedFeeInputs: correctly signed transactions (two kinds) whose fee is hostile: the fee is part of the
 // signed content, so these pass the signature check and reach fee validation and fee charging.
 func signedFeeInputs(w *warm) []c18input {
@@ -667,6 +686,7 @@ func checkC18(tier string) int {
 		inputs = append(inputs, olvmInputs(wm)...)
 		inputs = append(inputs, signedFeeInputs(wm)...)
 		inputs = append(inputs, bidConversationInputs(wm)...)
+		inputs = append(inputs, configChangeInputs(wm)...)
 		if wi == 0 || tier == "thorough" {
 			inputs = append(inputs, truncationSweep(wm)...)
 		}
